@@ -43,6 +43,11 @@ inductive FragP (c : Ctx V) : Expr V → Prop
       (hR : ∀ vals : List V, vals ≠ [] → engReduce op nan vals = aggReduce op nan vals)
       (hP : ∀ l l' : List V, l.Perm l' → aggReduce op nan l = aggReduce op nan l') :
       FragP c a → FragP c (.agg op w g a)
+  | aggP (op : String) (w : Bool) (g : List String) (p a : Expr V)
+      (hacc : engineAccumulators.contains op = true) (hnv : vectorizedAggs.contains op = false)
+      (hR : ∀ (q : V) (vals : List V), vals ≠ [] → engReduce op q vals = aggReduce op q vals)
+      (hP : ∀ (q : V) (l l' : List V), l.Perm l' → aggReduce op q l = aggReduce op q l') :
+      Frag true p → FragP c a → FragP c (.aggP op w g p a)
   | join (op : String) (bl : Bool) (m : Matching) (l r : Expr V)
       (hc : m.card = .oneToOne) (hincl : m.incl = []) (hop : engineBinOps.contains op = true)
       (hul : UniqueKeys c m l) (hur : UniqueKeys c m r) :
@@ -62,6 +67,7 @@ theorem fragP_wt {P : Matching → Prop} (hP : ∀ m, P m) (c : Ctx V) (e : Expr
   | binVS op bl m a sc _ _ hs iha => exact .bin op bl m false true a sc (fun _ h => by cases h) iha (C05.frag_wt true sc hs)
   | binSV op bl m sc a _ hs _ iha => exact .bin op bl m true false sc a (fun h => by cases h) (C05.frag_wt true sc hs) iha
   | agg op w g a _ _ _ _ ih => exact .agg op w g a ih
+  | aggP op w g p a _ _ _ _ hp _ ih => exact .aggP op w g p a (C05.frag_wt true p hp) ih
   | join op bl m l r _ _ _ _ _ _ _ ihl ihr => exact .bin op bl m false false l r (fun _ _ => hP m) ihl ihr
 
 theorem fragP_isScalar (c : Ctx V) (e : Expr V) (h : FragP c e) : e.isScalar = false :=
@@ -186,6 +192,33 @@ theorem fragP_inv (c : Ctx V) (hq : c.q.noDupCheck = true) (e : Expr V) (h : Fra
           | false => rfl
           | true => exact absurd hh hvec
         obtain ⟨ys, A, hys, hspec, hp⟩ := agg_perm child op w g none t xs nan hxs hids hvec' rfl hk hR
+        rw [hA1] at hspec
+        refine ⟨ys, A2, hys, hev, ?_⟩
+        rw [← Except.ok.inj hspec] at hp
+        exact hp.trans hA
+  | aggP op w g p a hacc hnv hR hP hfp hfa ih =>
+    obtain ⟨child, hchild, hinv⟩ := ih
+    obtain ⟨po, hpo, hinvp⟩ := frag_inv c hq true p hfp
+    have hk : (op == "topk" || op == "bottomk") = false := by
+      cases hc : (op == "topk" || op == "bottomk") with
+      | false => rfl
+      | true =>
+        simp only [Bool.or_eq_true, beq_iff_eq] at hc
+        rcases hc with rfl | rfl <;> (revert hacc; decide)
+    refine ⟨engAggregate op w g (some po) child, ?_, fun t => ?_⟩
+    · rw [engOp]
+      simp only [hchild, hpo, bind, Except.bind, pure, Except.pure, hk, hacc, Bool.false_eq_true, if_false, Bool.not_true]
+    · obtain ⟨xs, out, hxs, hval, hperm⟩ := hinv t
+      obtain ⟨q, hq', heq⟩ := scalarOf_of_inv c p po hinvp t
+      have hids := (fragP_ids c a hfa child hchild t xs hxs).1
+      obtain ⟨A1, A2, hA1, hA2, hA⟩ := aggregate_perm op w g q _ _ hperm hk (hP q)
+      have hev : eval c t (.aggP op w g p a) = .ok (.vec A2) := by
+        rw [eval]
+        simp only [hval, heq, hA2, bind, Except.bind, pure, Except.pure, Value.asVec, Value.asScal, dedupCheck, hq,
+          Bool.not_true, Bool.false_and, Bool.false_eq_true, if_false]
+      · have hvec' : (!w && g.isEmpty && vectorizedAggs.contains op) = false := by
+          rw [hnv]; simp
+        obtain ⟨ys, A, hys, hspec, hp⟩ := agg_perm child op w g (some po) t xs q hxs hids hvec' hq' hk (hR q)
         rw [hA1] at hspec
         refine ⟨ys, A2, hys, hev, ?_⟩
         rw [← Except.ok.inj hspec] at hp
